@@ -7,9 +7,13 @@ package harness
 //     inside panrpc (nil context): what each invocation reports is its own.
 
 import (
+	"github.com/pojntfx/panrpc/go/pkg/rpc"
 	"context"
+	"encoding/json"
+	"errors"
 	"fmt"
 	"runtime"
+	"strings"
 	"sync"
 	"sync/atomic"
 	"time"
@@ -25,6 +29,19 @@ func FamRaceStress(seed int64, rounds int) SysRecord {
 	}
 	bg, bgCancel := context.WithTimeout(context.Background(), 60*time.Second)
 	defer bgCancel()
+	// a context that was cancelled explicitly and whose deadline passes later: the call returns the CONTEXT's
+	// error (context canceled); a cancelled call with a pointer result returns the zero result (nil)
+	{
+		dctx, dcancel := context.WithDeadline(bg, time.Now().Add(25*time.Millisecond))
+		dcancel()
+		time.Sleep(40 * time.Millisecond)
+		v, err := p.ra.EchoInt(dctx, 90990, 5)
+		rec.Calls = append(rec.Calls, SysCall{Tag: 90990, From: "A", Method: "CancelledThenDeadlinePassed", Ret: canon(v), Err: errText(err), Extra: errText(dctx.Err()), Done: true})
+		cctx, ccancel := context.WithCancel(bg)
+		ccancel()
+		pv, perr := p.ra.EchoPtr(cctx, 90991, &Rec{})
+		rec.Calls = append(rec.Calls, SysCall{Tag: 90991, From: "A", Method: "CancelledPointerResult", Ret: canon(pv), Err: errText(perr), Extra: fmt.Sprint(pv == nil), Done: true})
+	}
 	// responses racing the cancellation of their calls
 	var bad atomic.Int64
 	for k := 0; k < rounds; k++ {
@@ -86,5 +103,125 @@ func FamRaceStress(seed int64, rounds int) SysRecord {
 		q.close()
 	}
 	p.close()
+	return rec
+}
+
+// FamNames — C01 "exactly one invocation of the function it named": the peer exposes functions whose names
+// coincide with names panrpc uses internally (CallClosure, LinkMessage, Close). A call of each is an invocation
+// of the peer's own function of that name, exactly once.
+func FamNames(seed int64) SysRecord {
+	rec := SysRecord{Family: "conc", Config: "json-raw/message/exposed functions named like panrpc's own", Seed: seed}
+	r4 := newPathRec()
+	rc := runRemoteE2E[rdNames]("names/e2e", &lvN{r: r4, N: lvNN{r4}}, r4)
+	if rc.LinkErr != "" {
+		rec.Notes = append(rec.Notes, "the definition did not link: "+rc.LinkErr)
+		return rec
+	}
+	for path, ran := range rc.E2E {
+		rec.Calls = append(rec.Calls, SysCall{Tag: 0, From: "A", Method: "NamedLikeInternal", Arg: path, Ret: ran, Done: true})
+	}
+	return rec
+}
+
+// FamBigNames — C15: many links each ended by the peer naming a function that does not exist, with a name of
+// 1 MiB that differs from link to link. After the links have ended nothing of them may remain reachable from the
+// registry: the live heap does not grow with the number of finished links.
+func FamBigNames(seed int64) SysRecord {
+	rec := SysRecord{Family: "earlycancel", Config: "json-raw/message 24 links each ended by a request for an unknown function with a name of 1 MiB", Seed: seed}
+	w := newWorld()
+	node := NewSysNode[json.RawMessage](w, "A")
+	c := jsonRawCodec()
+	heap := func() uint64 {
+		runtime.GC()
+		runtime.GC()
+		var m runtime.MemStats
+		runtime.ReadMemStats(&m)
+		return m.HeapAlloc
+	}
+	one := func(k int) {
+		ctx, cancel := context.WithCancel(context.Background())
+		defer cancel()
+		reqIn, resIn := newFailQ(), newFailQ()
+		sink := func(b json.RawMessage) error { return nil }
+		errc := make(chan error, 1)
+		go func() { errc <- node.Reg.LinkMessage(ctx, sink, sink, reqIn.Get, resIn.Get, c.Marshal, c.Unmarshal, nil) }()
+		name := fmt.Sprintf("NoSuchFunction%06d", k) + strings.Repeat("x", 1<<20)
+		reqIn.ch <- json.RawMessage(`{"call":"q","function":"` + name + `","args":[]}`)
+		select {
+		case <-errc:
+		case <-time.After(3 * time.Second):
+			rec.Notes = append(rec.Notes, "BIG-NAMES the link did not end after a request for an unknown function")
+		}
+		cancel()
+		other := errors.New("closed")
+		select {
+		case reqIn.fail <- other:
+		default:
+		}
+		select {
+		case resIn.fail <- other:
+		default:
+		}
+		waitUntil(func() bool { return len(node.Remotes()) == 0 }, 2*time.Second)
+	}
+	one(0)
+	time.Sleep(20 * time.Millisecond)
+	h0 := heap()
+	for k := 1; k <= 24; k++ {
+		one(k)
+	}
+	time.Sleep(50 * time.Millisecond)
+	h1 := heap()
+	runtime.KeepAlive(node) // the registry is still in use: what it retains counts
+	if h1 > h0+10<<20 {
+		rec.Notes = append(rec.Notes, fmt.Sprintf("BIG-NAMES after 24 further links had ended (each by a request naming an unknown function, names of 1 MiB) the live heap had grown by %d MiB: something of the finished links is still reachable from the registry", (h1-h0)>>20))
+	}
+	return rec
+}
+
+// FamNilLocalCaller — C11: a registry that exposes nothing (created with a nil local object: a pure caller) passes
+// a function to its peer; the peer invokes it: the function runs with the peer's arguments and its result is
+// handed back, as for any other caller.
+func FamNilLocalCaller(seed int64) SysRecord {
+	rec := SysRecord{Family: "closures", Config: "json-raw/message/the caller exposes nothing (nil local object)", Seed: seed}
+	w := newWorld()
+	callee := NewSysNode[json.RawMessage](w, "B")
+	caller := rpc.NewRegistry[sysRemote, json.RawMessage](nil, nil)
+	ctx, cancel := context.WithCancel(context.Background())
+	defer cancel()
+	c := jsonRawCodec()
+	abReq, abRes, baReq, baRes := newFrameQ[json.RawMessage](), newFrameQ[json.RawMessage](), newFrameQ[json.RawMessage](), newFrameQ[json.RawMessage]()
+	e1, e2 := make(chan error, 1), make(chan error, 1)
+	go func() { e1 <- caller.LinkMessage(ctx, abReq.Put, abRes.Put, baReq.Get, baRes.Get, c.Marshal, c.Unmarshal, nil) }()
+	go func() { e2 <- callee.Reg.LinkMessage(ctx, baReq.Put, baRes.Put, abReq.Get, abRes.Get, c.Marshal, c.Unmarshal, nil) }()
+	defer func() {
+		cancel()
+		for _, q := range []*frameQ[json.RawMessage]{abReq, abRes, baReq, baRes} {
+			q.Close(errors.New("closed"))
+		}
+	}()
+	var remote sysRemote
+	got := false
+	waitUntil(func() bool {
+		caller.ForRemotes(func(id string, r sysRemote) error { remote, got = r, true; return nil })
+		return got
+	}, 2*time.Second)
+	if !got {
+		rec.Notes = append(rec.Notes, "link did not come up")
+		return rec
+	}
+	cctx, ccancel := context.WithTimeout(ctx, 4*time.Second)
+	var runs []string
+	var mu sync.Mutex
+	v, err := remote.Iter(cctx, 470, 3, func(ctx context.Context, i int, s string, xs []int, b bool) (string, error) {
+		mu.Lock()
+		runs = append(runs, canon([]any{i, s, xs, b}))
+		mu.Unlock()
+		return fmt.Sprintf("r%d", i), nil
+	})
+	ccancel()
+	mu.Lock()
+	rec.Calls = append(rec.Calls, SysCall{Tag: 470, From: "A", Method: "Iter", Arg: "3", Oracle: "-1", Ret: v, Err: errText(err), Done: true, Extra: strings.Join(runs, "|")})
+	mu.Unlock()
 	return rec
 }
